@@ -18,7 +18,14 @@ PANICKING_STD_METHODS = {
     "split_to", "advance", "put", "put_slice", "put_u8", "reserve_exact", "with_capacity", "repeat", "resize", "extend_from_within", "range", "to_digit",
     "ilog", "ilog2", "ilog10", "isqrt", "next_power_of_two", "from_str_radix", "sort_by_cached_key", "select_nth_unstable", "fill_with", "array_chunks",
     "as_chunks", "split_first_chunk", "unchecked_add", "unchecked_sub", "unchecked_mul", "strict_add", "strict_sub", "strict_mul", "checked_unwrap",
-    "elapsed_unwrap", "try_into_unwrap", "nth_back_unwrap",
+    "elapsed_unwrap", "try_into_unwrap", "nth_back_unwrap", "div_euclid", "rem_euclid", "clamp", "splice", "replace_range", "insert_str",
+    "from_u32_unchecked", "split_inclusive_at", "split_at_unchecked", "set_len", "swap_with_slice", "assume_init",
+}
+# methods whose name is harmless on one type and panicking on another: listed with their full path
+# (Vec::truncate never panics; String::truncate / String::remove panic when the index is not on a char boundary)
+PANICKING_STD_FULL = {
+    "alloc::string::String::truncate", "alloc::string::String::remove", "alloc::string::String::pop_unchecked",
+    "core::str::<impl str>::split_at", "core::str::<impl str>::split_at_mut", "core::time::Duration::new", "core::time::Duration::from_secs_f64",
 }
 
 
@@ -149,7 +156,7 @@ def panic_sites(env, rep, rule, entries, label):
             name = norm_name(c.get("pretty"))
             if model_for(c, name) is not None or name in TRUSTED_NOPANIC:
                 continue
-            if is_std_name(name) and std_method(name) not in PANICKING_STD_METHODS:
+            if is_std_name(name) and std_method(name) not in PANICKING_STD_METHODS and name not in PANICKING_STD_FULL:
                 assumed.add(name)
                 continue
             if c.get("fnptr") or c.get("indirect"):
